@@ -5,3 +5,4 @@ import GfaGen.Multiply
 import GfaGen.Seq
 import GfaGen.Tags
 import GfaGen.Clone
+import GfaGen.Connect
